@@ -88,6 +88,8 @@ DROPPED = {
     "assert messages": "`assert c, msg`: only `c` decides whether AssertionError is raised; the text is not part of the state",
     "float(e) / int(e) of a value that already has that type": "identity on exact numbers (int(n // 2) of an int, float(x) of a float); "
                                                               "float(n) of an int is NOT dropped, it becomes the cast to α",
+    "np.asarray(A, dtype=float)": "conversion of a numeric array to float64: identity on exact numbers (the integer-dtype wrap-around it "
+                                  "prevents — finding F39 — is a float/integer matter measured by the check, not by the proof)",
     "type annotations": "used only to check that a parameter is the Optional / array the signature table says",
     "float rounding": "decimal literals are read as the exact decimal (0.01 = 1/100), arithmetic is exact; IEEE rounding is measured by the check, not proved",
 }
@@ -416,6 +418,11 @@ def call(e: ast.Call, cx: Ctx):
             if t == "vec" and not e.keywords:
                 return f"(Np.sum1 {a})", "num"
             raise Unsupported(f"{src(e)}: only np.sum(A, axis=1) and np.sum(v)")
+        if npf == "asarray" and len(e.args) == 1 and len(e.keywords) == 1 and ast.unparse(e.keywords[0]) == "dtype=float":
+            a, t = ex(e.args[0], cx)
+            if t not in ("mat", "vec"):
+                raise Unsupported(f"np.asarray(…, dtype=float) of {t}")
+            return a, t                    # DROPPED: conversion of a numeric array to float64 (identity on exact numbers)
         if e.keywords:
             raise Unsupported(f"keyword arguments in {src(e)}")
         if npf == "all" and len(e.args) == 1:
